@@ -32,6 +32,9 @@ type StoreParams struct {
 	AutoGC   bool      `json:"auto_gc,omitempty"`
 	AutoSave bool      `json:"auto_save,omitempty"`
 	Stray    int       `json:"stray,omitempty"` // unreferenced but valid blob files planted in blobs/
+	// file store options
+	ForceCAS     bool `json:"force_cas,omitempty"`
+	IgnoreNoName bool `json:"ignore_no_name,omitempty"`
 }
 
 type storeProp struct{ id string }
@@ -97,6 +100,8 @@ func (p *storeProp) Gen(r *Rand, tier string, idx int) any {
 	if sp.Kind == "file" {
 		o.Titles = true
 		o.AliasNames = true
+		sp.ForceCAS = r.Chance(0.3)
+		sp.IgnoreNoName = r.Chance(0.2)
 	}
 	sp.Graph = *GenGraph(r, o)
 	g := sp.Graph.Build()
@@ -324,6 +329,7 @@ func (sr *storeRun) open() error {
 		if err != nil {
 			return err
 		}
+		s.ForceCAS, s.IgnoreNoName = sr.sp.ForceCAS, sr.sp.IgnoreNoName
 		sr.store = s
 		sr.closer = func() { s.Close() }
 	case "oci":
@@ -417,6 +423,7 @@ func (sr *storeRun) sequential() *Verdict {
 	}
 	sr.plantStrays()
 	sr.model = NewSModel(g, sp.Kind, sp.AutoGC)
+	sr.model.ignoreNoName = sp.IgnoreNoName
 	sr.graphKnown = map[int]bool{}
 	ctx := context.Background()
 	var v *Verdict
@@ -1070,6 +1077,7 @@ func (sr *storeRun) concurrent() *Verdict {
 		}
 		// diagnosis: the order of invocation, replayed on the model
 		dm := NewSModel(g, sp.Kind, sp.AutoGC)
+		dm.ignoreNoName = sp.IgnoreNoName
 		for _, h := range hist {
 			dm.Apply(h.Op)
 		}
@@ -1087,7 +1095,11 @@ func (sr *storeRun) concurrent() *Verdict {
 func (sr *storeRun) porcupineModel(final *Snapshot) porcupine.Model {
 	g, kind := sr.g, sr.sp.Kind
 	return porcupine.Model{
-		Init: func() interface{} { return NewSModel(g, kind, sr.sp.AutoGC) },
+		Init: func() interface{} {
+			m := NewSModel(g, kind, sr.sp.AutoGC)
+			m.ignoreNoName = sr.sp.IgnoreNoName
+			return m
+		},
 		Step: func(state, input, output interface{}) (bool, interface{}) {
 			m := state.(*SModel).Clone()
 			op := input.(SOp)
